@@ -73,6 +73,7 @@ def run(rep, tier, seed):
     SC.model_and_replay(rep, "w", SC.write_grid(tier), "c01_w_" + tier, ["FileOutUnique", "AllDeleted"], liveness=False, key="write")
     rep.cov["distinct_nontrivial"] = len({(r["cls"], r.get("shape")) for r in recs}) + len(frecs)
     SC.pair_sessions(rep, seed + 5, 1 if tier == "quick" else 6)
+    SC.big_stream(rep)
     rep.assumptions += ["field VALUES are seeded samples (boundary + random); classes, payload-length residues, selector "
                         "ranges, levels and container-size classes are enumerated",
                         "equality at file level is against the object-level normal form decode(encode(o))"]
